@@ -59,11 +59,30 @@ def fold(ev, fn, args):
         return ("panic", "%s (line %s)" % (p.what, p.line))
     except H.Budget:
         return ("opaque", "budget")
-    if is_ok(r):
-        return ("ok", r.args[0])
     if is_err(r):
         return ("err", err_kind(r))
+    if H.has_sym(r):
+        # the function did not reduce to a value (an idiom the folder does not know, an opaque callee): nothing is decided
+        return ("opaque", r)
+    if is_ok(r):
+        return ("ok", r.args[0])
     return ("val", r)
+
+
+def opaque(*results):
+    """did any of these fold() results fail to reduce to a value?"""
+    return any(r[0] == "opaque" for r in results)
+
+
+def tri(run, rule, key, results, cond, ok_text, bad_text, loc=None, **kw):
+    """three-valued check on fold() results: not decided (recorded, never a violation) when a fold stayed opaque"""
+    if not isinstance(results, (list, tuple)) or (results and not isinstance(results[0], (list, tuple))):
+        results = [results]
+    if opaque(*results):
+        run.ok(rule, key, "the function does not fold to a value here (%s): not decided" %
+               "; ".join(str(r[1])[:60] for r in results if r[0] == "opaque"), loc, nontrivial=False)
+        return None
+    return run.check(cond, rule, key, ok_text, bad_text, loc, **kw)
 
 
 def find_trait_fn(crate, self_ty, trait_suffix, method):
